@@ -33,6 +33,12 @@ def scenarios(quick):
             fns = [[fn(1, "R0", "E2", True)] * 2, [fn(2, "R0", "E1", True)] * 2, [fn(2, "R0", "E1", True)] * 2, [fn(1, "R1", None, True)] * 2]
             out.append(scenario(st, fns, [start(1, 0), start(2, 3), start(3, 6), start(4, 9)]))
             out.append(scenario(st, fns, [start(1, 0), start(2, 3), start(3, 3), start(4, 7, True)]))
+    # a delay function: the breaker stays open for what the function asks for - when it first opens and when a failed trial re-opens it
+    for dfn in (4, 1):
+        for t4 in (8, 9, 10):
+            fns = [[fn(1, "R0", "E1", True)] * 2, [fn(1, "R1", None, True)] * 2, [fn(1, "R0", "E1", True)] * 2, [fn(1, "R1", None, True)] * 2]
+            out.append(scenario([cb("c", brk(1, 1, 2), dfn=dfn)], fns, [start(1, 0), start(2, 3), start(3, 5), start(4, t4, True)]))
+            out.append(scenario([retry(1, dly=2), cb("c", brk(1, 1, 2), dfn=dfn)], fns, [start(1, 0), start(3, 5), start(4, t4)]))
     # the standalone Open / HalfOpen / Close while trials are in flight: a call that changes nothing (already in that state)
     # must not hand out permits again; a forced transition abandons the trials in flight
     for c in (brk(1, 1, 3, sthr=2, scap=2), brk(1, 1, 3)):
@@ -61,14 +67,15 @@ def run(ctx):
     tmc.model_check(ctx, "cb", model_scenarios(), ["MC_NoStuckThread", "MC_AllReturn", "MC_C04", "MC_TrialPermits"])
     scs = scenarios(ctx.tier == "quick")
     if ctx.tier == "quick":      # several concurrent executions make validation expensive: every 6th scenario, offset by the seed
-        scs = scs[ctx.seed % 6::6] + scs[-24:]
+        scs = scs[ctx.seed % 6::6] + scs[-36:]
     p_c07.run_family(ctx, "cb", scs, props=("C04",))
     # time-based breakers with a short open delay under retries that wait (sequential machine, direction A): rejected while
     # open, the trial after the delay, re-opening / closing inside one execution and across successive executions
     import seq
     binary = vlib.build_harness(ctx)
     outs_t = [seq.out("R1"), seq.out("R0", "E1"), seq.out("R0", "E1", d=1), seq.out("R1", d=2)]
-    st = [["rpW", "cbT"], ["rpW", "cbR"], ["cbT", "rpW"], ["rpD", "cbT"], ["rpW", "fbO", "cbT"], ["rpW", "cbT", "cbR"], ["rpW", "cbR", "to"]]
+    st = [["rpW", "cbT"], ["rpW", "cbR"], ["cbT", "rpW"], ["rpD", "cbT"], ["rpW", "fbO", "cbT"], ["rpW", "cbT", "cbR"], ["rpW", "cbR", "to"],
+          ["rpW", "cbDF"], ["rp3", "cbDF"], ["cbDF", "rpW"]]
     mm = seq.run_family(ctx, binary, "cbseq", st, outs=outs_t, maxcalls=4, execs=2 if ctx.tier == "quick" else 3)
     seq.report(ctx, mm, lambda m: m["tag"] in ("calls", "ret", "verdict", "probe") or m.get("kind") == "cb")
     return vlib.finish(ctx, rule="4 breaker configurations (thresholds 1-2, success thresholds, delay 2-3) x 4 placements (alone, under retry, under a timeout that fires, under fallback) x 4 executions "
